@@ -1,5 +1,5 @@
 #!/bin/bash
-# tools/try_seed.sh <seed-dir containing patch.diff [demo.py]> <Cxx> [more check args]
+# tools/try_seed.sh <seed-dir containing patch.diff [demo.py]> <Cxx> [more check args]   (TDVERIF_DIR=<worktree of /verif> to use that tree's check)
 # Applies the seeded change to a scratch COPY of /repo (never /repo itself), confirms the demo, runs ./check against the copy.
 set -u
 SEED=$(realpath "$1"); PROP=$2; shift 2
@@ -11,6 +11,7 @@ if [ -f "$SEED/demo.py" ]; then
   ( cd "$S/repo" && PYTHONPATH=/repo/src /venv/bin/python "$SEED/demo.py" >/dev/null 2>&1 ); echo "demo on clean /repo: exit $?"
   ( cd "$S/repo" && PYTHONPATH="$S/repo/src" /venv/bin/python "$SEED/demo.py" >/dev/null 2>&1 ); echo "demo on mutated copy: exit $?"
 fi
-cd /verif && TDVERIF_REPO="$S/repo" ./check "$PROP" "$@" 2>&1 | grep -E "VIOLATION|KNOWN-FINDING|-> |INFRA|Error" ; echo "check exit ${PIPESTATUS[0]}"
+V=${TDVERIF_DIR:-/verif}
+cd "$V" && TDVERIF_REPO="$S/repo" ./check "$PROP" "$@" 2>&1 | grep -E "VIOLATION|KNOWN-FINDING|-> |INFRA|Error" ; echo "check exit ${PIPESTATUS[0]}"
 # tables regenerated from the mutated copy must not stay in the tree
-git -C /verif checkout -- lean/TD/TD/Gen evidence 2>/dev/null
+git -C "$V" checkout -- lean/TD/TD/Gen evidence 2>/dev/null
